@@ -69,11 +69,18 @@ Definition m_sqrt (x : xreal) (w : world) : res (xreal * world) :=
   | Fin a => do p <- decide (0 <= a)%R w; Ok (if fst p then Fin (sqrt a) else NaN, snd p)
   | PosInf => Ok (PosInf, w) | _ => Ok (NaN, w)
   end.
-Definition m_truthy (v : val) (w : world) : res (bool * world) :=
+Definition m_truthy1 (v : val) (w : world) : res (bool * world) :=
   match truthy v, v with
   | Some b, _ => Ok (b, w)
   | None, VNum (Fin a) => do z <- decide (a = 0)%R w; Ok (negb (fst z), snd z)
   | None, _ => Ok (true, w)
+  end.
+(* the truth value of a numpy array is that of its only element; with more than one element numpy raises *)
+Definition m_truthy (v : val) (w : world) : res (bool * world) :=
+  match v with
+  | VArr [x] => m_truthy1 x w
+  | VArr (_ :: _ :: _) => Exc "ValueError"
+  | _ => m_truthy1 v w
   end.
 (* numpy arrays: payload as a (nested) list; [ul] forgets the array tag, [arr] puts it on a list result *)
 Definition ul (v : val) : val := match v with VArr l => VList l | _ => v end.
@@ -420,11 +427,26 @@ Definition np_average (l wl : list val) (w : world) : res (val * world) :=
   match fst pw with
   | VList p => do sw <- vsum_l p (snd pw); do tw <- vsum_l wl (snd sw); num2 m_div (fst sw) (fst tw) (snd tw)
   | _ => Stuck "np.average" end.
+(* elementwise binary numpy function (np.maximum, np.minimum) with scalar/array broadcasting *)
+Fixpoint map2x (fuel : nat) (f : xreal -> xreal -> xreal) (a b : val) {struct fuel} : res val :=
+  match fuel with O => Stuck "map2x depth" | S k =>
+  match seq_payload a, seq_payload b with
+  | Some la, Some lb =>
+      do r <- (fix go (l1 l2 : list val) : res (list val) :=
+                 match l1, l2 with
+                 | [], [] => Ok []
+                 | x :: r, y :: s => do v <- map2x k f x y; do t <- go r s; Ok (v :: t)
+                 | _, _ => Exc "ValueError" end) la lb;
+      Ok (VArr r)
+  | Some la, None => do r <- (fix go (l : list val) : res (list val) := match l with [] => Ok [] | x :: r => do v <- map2x k f x b; do t <- go r; Ok (v :: t) end) la; Ok (VArr r)
+  | None, Some lb => do r <- (fix go (l : list val) : res (list val) := match l with [] => Ok [] | y :: r => do v <- map2x k f a y; do t <- go r; Ok (v :: t) end) lb; Ok (VArr r)
+  | None, None => match to_x a, to_x b with Some x, Some y => Ok (VNum (f x y)) | _, _ => Exc "TypeError" end
+  end end.
 Definition builtin (name : string) (args : list val) (kws : list (string * val)) (w : world) : option (res (val * world)) :=
   match name with
   | "slice" => Some (pure_ (match args with [lo; hi] => Ok (mk_slice lo hi) | _ => Stuck "slice arity" end) w)
-  | "np.maximum" => Some (match args with [a; b] => pure2 xmax a b w | _ => Exc "TypeError" end)
-  | "np.minimum" => Some (match args with [a; b] => pure2 (fun x y => xneg (xmax (xneg x) (xneg y))) a b w | _ => Exc "TypeError" end)
+  | "np.maximum" => Some (match args with [a; b] => pure_ (map2x 4 xmax a b) w | _ => Exc "TypeError" end)
+  | "np.minimum" => Some (match args with [a; b] => pure_ (map2x 4 (fun x y => xneg (xmax (xneg x) (xneg y))) a b) w | _ => Exc "TypeError" end)
   | "np.zeros" => Some (pure_ (match args with
                      | [VInt n] => Ok (VArr (repeat (VNum (Fin 0)) (Z.to_nat n)))
                      | [sh] => match seq_payload sh with
@@ -503,7 +525,16 @@ Definition builtin (name : string) (args : list val) (kws : list (string * val))
   | "tuple" => Some (pure_ (match args with [a] => do l <- as_list a; Ok (VTuple l) | _ => Stuck "tuple" end) w)
   | "np.ones" => Some (pure_ (match args with [VInt n] => Ok (VArr (repeat (VNum (Fin 1)) (Z.to_nat n))) | _ => Stuck "np.ones" end) w)
   | "np.nan_to_num" => Some (num1 xnan_to_num args w)
-  | "np.isfinite" => Some (match args with [a] => match to_x a with Some x => Ok (VBool (xisfinite x), w) | None => Stuck "isfinite" end | _ => Exc "TypeError" end)
+  | "np.isfinite" => Some (match args with
+                          | [a] => match to_x a, seq_payload a with
+                                   | Some x, _ => Ok (VBool (xisfinite x), w)
+                                   | None, Some l =>
+                                       do r <- (fix go (l : list val) : res (list val) :=
+                                                  match l with [] => Ok []
+                                                  | y :: t => match to_x y with Some x => do rest <- go t; Ok (VBool (xisfinite x) :: rest) | None => Stuck "isfinite" end end) l;
+                                       Ok (VArr r, w)
+                                   | None, None => Stuck "isfinite" end
+                          | _ => Exc "TypeError" end)
   | "copy.deepcopy" | "float" => Some (match args with a :: _ => Ok (a, w) | _ => Exc "TypeError" end)
   | "np.array" | "np.asarray" => Some (match args with a :: _ => Ok (arr a, w) | _ => Exc "TypeError" end)
   | "int" => Some (match args with [VInt z] => Ok (VInt z, w) | _ => Stuck "int()" end)
@@ -523,7 +554,12 @@ Definition draw_normal (args : list val) (kws : list (string * val)) (w : world)
   | Some l, Some s =>
       match to_x l, to_x s with
       | Some (Fin loc), Some (Fin sc) =>
-          Ok (VNum (Fin (loc + sc * rng w (cur w))), World (rng w) (S (cur w)) (olog w) (decs w) (pc w))
+          let x := VNum (Fin (loc + sc * rng w (cur w))) in
+          let w' := World (rng w) (S (cur w)) (olog w) (decs w) (pc w) in
+          match get "size" 2%nat with
+          | None | Some VNone => Ok (x, w')
+          | Some (VInt 1) => Ok (VArr [x], w')            (* size=1: a one-element ARRAY, as numpy returns *)
+          | Some _ => Stuck "normal: size" end
       | _, _ => Stuck "normal: non-finite"
       end
   | _, _ => Exc "TypeError"
